@@ -9,7 +9,7 @@ use crate::gen::*;
 use crate::json::J;
 use crate::prng::Rng;
 use crate::runner::*;
-use crate::scene::{opacity_byte, probe_source};
+use crate::scene::{opacity_byte, probe_source, probe_source_checked, ProbeFail};
 use crate::util::*;
 use raqote::*;
 
@@ -273,9 +273,15 @@ pub fn gen_case(rng: &mut Rng) -> GradCase {
     let stops = random_stops(rng);
     let spread = rng.below(3) as u8;
     let far = rng.chance(0.15);
+    // 'nice' values now and then: the origin, whole numbers, powers of two
+    let nice = rng.chance(0.12);
     let pos = |rng: &mut Rng, s: f64| -> f32 {
+        if nice && rng.chance(0.7) {
+            return *rng.pick(&[0.0f32, 0., 1., 0.5, 2., 4., 8., 16., -1.]);
+        }
         (if far { rng.range(-3. * s - 40., 4. * s + 40.) } else { rng.range(-2., s + 2.) }) as f32
     };
+    let nice_radius = |rng: &mut Rng, r: f32| -> f32 { if nice && rng.chance(0.7) { *rng.pick(&[1.0f32, 2., 4., 8., 16., 32., 64., 128., 256., 100., 10.]) } else { r } };
     let src = match rng.below(4) {
         0 => {
             let start = (pos(rng, wf), pos(rng, hf));
@@ -285,7 +291,10 @@ pub fn gen_case(rng: &mut Rng) -> GradCase {
             }
             SrcSpec::Linear { stops, start, end, spread }
         }
-        1 => SrcSpec::Radial { stops, center: (pos(rng, wf), pos(rng, hf)), radius: rng.range(1.5, 2. * (wf + hf)) as f32, spread },
+        1 => {
+            let r = rng.range(1.5, 2. * (wf + hf)) as f32;
+            SrcSpec::Radial { stops, center: (pos(rng, wf), pos(rng, hf)), radius: nice_radius(rng, r), spread }
+        }
         2 => {
             let c2 = (pos(rng, wf), pos(rng, hf));
             let r2 = rng.range(3., 2. * (wf + hf)) as f32;
@@ -320,7 +329,24 @@ pub fn gen_case(rng: &mut Rng) -> GradCase {
         }
     }
     let (cx, cy) = (w as f32 / 2., h as f32 / 2.);
-    let t = match rng.below(8) {
+    // the transform that puts the gradient's own frame onto the device: the inverse of the current transform
+    // is then bit for bit the matrix the gradient carries (or its translation part)
+    let own_frame: Option<Transform> = if rng.chance(0.04) {
+        match &src {
+            SrcSpec::Radial { center, radius, .. } => Some(Transform::scale(*radius, *radius).then_translate(euclid::vec2(center.0, center.1))),
+            SrcSpec::Sweep { center, .. } | SrcSpec::TwoCircle { c1: center, .. } => Some(Transform::translation(center.0, center.1)),
+            SrcSpec::Linear { start, end, .. } => {
+                let (dx, dy) = (end.0 - start.0, end.1 - start.1);
+                Some(Transform::new(dx, dy, -dy, dx, start.0, start.1))
+            }
+            _ => None,
+        }
+    } else {
+        None
+    };
+    let t = match rng.below(9) {
+        _ if own_frame.is_some() => own_frame.unwrap(),
+        8 => special_transform(rng, w as f64, h as f64),
         0 | 1 | 2 => Transform::identity(),
         3 => Transform::translation(rng.range(-5., 5.) as f32, rng.range(-5., 5.) as f32),
         4 => Transform::translation(-cx, -cy).then_rotate(euclid::Angle::radians(rng.range(0., 6.28) as f32)).then_translate(euclid::vec2(cx, cy)),
@@ -350,10 +376,15 @@ pub fn run_case(ctx: &Ctx, c: &GradCase, st: &mut Stats, want: bool) -> CaseOut 
         let _ = probe_source(c.w, c.h, &other, &c.src, 1.0 - c.alpha * 0.5);
         st.add("cases_preceded_by_the_same_gradient_under_another_transform", 1);
     }
-    let pixels = match probe_source(c.w, c.h, &c.t, &c.src, c.alpha) {
-        Some(p) => p,
-        None => {
+    let pixels = match probe_source_checked(c.w, c.h, &c.t, &c.src, c.alpha) {
+        Ok(p) => p,
+        Err(ProbeFail::OutOfRange) => {
             st.add("cases_source_not_observable", 1);
+            return co;
+        }
+        Err(ProbeFail::NotCovered(x, y, cov)) => {
+            co.viol("C12", format!("filling a rectangle that contains the whole surface with 3 px to spare leaves pixel ({},{}) with coverage {} under the current transform {}", x, y, cov, transform_str(&c.t)));
+            co.desc = Some(case_desc(c));
             return co;
         }
     };
